@@ -428,7 +428,7 @@ def run_request(ctx, world, cfg, rq, now, hist):
         else:
             obs_parse = "Unmodelled"
 
-    rec = {"cfg": cfg, "request": rq, "now": now, "jti_db_before": jdb_before, "auth": a, "seen": seen,
+    rec = {"cfg": cfg, "variant": world.variant, "request": rq, "now": now, "jti_db_before": jdb_before, "auth": a, "seen": seen,
            "outcome": outcome, "jti_db_after": jdb_after}
 
     # ---- ORACLE (property text; independent of the model)
@@ -1001,6 +1001,46 @@ def side_cases(ctx, world):
 
 
 def replay(ctx, rp):
-    ctx.notes.append("replay re-runs the generator with the recorded seed (the recorded case is part of that run)")
-    ctx.rng.seed(rp.get("seed", ctx.seed))
-    run(ctx)
+    """re-run the recorded request (configuration, replay cache and clock restored) on the current tree and
+    apply the oracle and the model to it; without a recorded request re-run the generator with the seed."""
+    import logging
+    import srv
+    case = rp.get("case") or {}
+    if not (isinstance(case, dict) and "cfg" in case and "request" in case):
+        ctx.notes.append("replay re-runs the generator with the recorded seed")
+        ctx.rng.seed(rp.get("seed", ctx.seed))
+        return run(ctx)
+    logging.disable(logging.CRITICAL)
+    clock = srv.Clock(case["now"]).install()
+    try:
+        world = World(ctx, load_keys(ctx), case.get("variant", "plain"))
+        cfg = case["cfg"]
+        world.configure(cfg)
+        for k in case.get("jti_db_before", []):
+            world.c.jti_db[k] = case["now"]
+        hist = {"accepted_jti": {tuple(k.split(":", 1)) for k in case.get("jti_db_before", []) if ":" in k}}
+        rq = json.loads(json.dumps(case["request"]), object_hook=lambda d: d)
+        rq = untuple(rq)
+        jdb0 = list(world.c.jti_db.keys())
+        term, rec, unmod = run_request(ctx, world, cfg, rq, case["now"], hist)
+        ctx.case_seen(rec, True)
+        if not unmod:
+            ctx.coq_check_cases(["Lib.Base", "Lib.PyStr", "Model.ClientAuthn"], "hcase", "chk_history",
+                                [(history_term(ctx, world, cfg, jdb0, [term]), {"cfg": cfg, "variant": world.variant, "tag": "replay",
+                                                                                  "steps": [rec]})], label="replay", diag="diag_history")
+    finally:
+        clock.uninstall()
+        logging.disable(logging.NOTSET)
+
+
+def untuple(rq):
+    """JSON turned the tuples of a recorded request into lists; restore them."""
+    out = dict(rq)
+    if out.get("hdr") is not None:
+        out["hdr"] = tuple(out["hdr"])
+    for f in ("assertion", "request"):
+        if isinstance(out.get(f), dict):
+            sp = dict(out[f])
+            sp["key"] = tuple(sp["key"])
+            out[f] = sp
+    return out
